@@ -727,7 +727,8 @@ def gen_unwrap_wrappers(seed, big):
         body = [ind + '  ' + rnd.choice(['inner();', 'これ', 'a = "é";']) + str(i) for i in range(rnd.randint(1, 4))]
         w1, w2 = ind + rnd.choice(w1s), ind + rnd.choice(w2s)
         tag = rnd.choice([f"{RM} name='f1' unwrap-block", f"{TL} to='{PAST}' unwrap-block", f"{RM} name='f1' c=\"moved from C:\\legacy\\\" unwrap-block",
-                          f"{TL} to='{PAST}' note='it''s' unwrap-block".replace("''", '"'), f"{RM} name='f1'\n  unwrap-block"])
+                          f"{TL} to='{PAST}' note='it''s' unwrap-block".replace("''", '"'), f"{RM} name='f1'\n  unwrap-block",
+                          f"{RM} name='f1' unwrap-block=\"true\"", f"{TL} unwrap-block='' to='{PAST}'"])
         close = RM if tag.startswith(RM) else TL
         lines = [pre, ind + f'<{tag}>', w1] + body + [w2, ind + f'</{close}>'] + ([post] if post else [])
         src = '\n'.join(lines) + ('\n' if rnd.random() < 0.7 else '')
